@@ -66,10 +66,38 @@ def setup():
   _S['scengen'] = scengen
 
 
+def members_leave_with_calls_in_flight(r, i):
+  """Unanswered calls with different deadlines are in flight on the last member(s) when they leave the server set (and
+  perhaps re-join): every call must still complete by its own deadline."""
+  stack = ['mux', 'thrift'][i % 2]
+  n_ep = r.choice([1, 1, 2])
+  n = r.choice([2, 3, 4])
+  T = r.choice([16, 32])
+  eps = [{'port': 9001 + k, 'default': {'act': r.choice(['drop', 'drop', 'reply']), 'delay': T + 20}, 'plan': {}, 'reach': []}
+         for k in range(n_ep)]
+  evs = [{'at': k, 'op': 'call', 'id': 'c%d' % k, 'timeout': T + 6 * k} for k in range(n)]
+  t_leave = n + r.choice([0, 1, 3])
+  for k in range(n_ep):
+    evs.append({'at': t_leave + k * r.choice([0, 1]), 'op': 'leave', 'port': 9001 + k})
+  if r.random() < 0.4:
+    evs.append({'at': t_leave + r.choice([2, T // 2, T + 1]), 'op': 'join', 'port': 9001})
+  if r.random() < 0.5:
+    evs.append({'at': t_leave + 2, 'op': 'call', 'id': 'c%d' % n, 'timeout': T})
+  spec = {'stack': stack, 'tie': r.choice(['fifo', 'lifo']), 'timeout': T, 'seed': r.randrange(1 << 30), 'resolution': r.choice([1, 4]),
+          'endpoints': eps, 'events': sorted(evs, key=lambda e: e['at']), 'faults': [], 'horizon': T + 6 * n + 60}
+  if stack == 'thrift':
+    spec['pool'] = {'min': 1, 'max': r.choice([2, 4]), 'maxq': 8}
+  return spec
+
+
 def gen_cases(tier, seed):
   from harness import scengen
   n = 320 if tier == 'quick' else 6000
   out = []
+  for i in range(n // 16):
+    r = C.case_rng(seed, PID + 'leave', i)
+    spec = members_leave_with_calls_in_flight(r, i)
+    out.append({'kind': spec['stack'] + '/leave-in-flight', 'spec': spec})
   profs = ['mixed', 'timeouts', 'faults', 'outage', 'timeouts', 'mixed']
   for i in range(n):
     r = C.case_rng(seed, PID, i)
